@@ -924,7 +924,7 @@ Definition spec_step (cfg : config) (d : wdecl) (qs : list (list qparam)) (st : 
            | LArch a => match w !! a with
                         | Some x => inr (set_sarch st w a (SA (sa_live x) (sa_cap x) (sa_cap_exact x) (sa_rem x) (sa_cre x) [] [] (sa_synced x) (sa_synced x)))
                         | None => inr st end
-           | LWorld => inr (set_sworld st ((fun x => SA (sa_live x) (sa_cap x) (sa_cap_exact x) (sa_rem x) (sa_cre x) [] [] (sa_synced x)) <$> w))
+           | LWorld => inr (set_sworld st ((fun x => SA (sa_live x) (sa_cap x) (sa_cap_exact x) (sa_rem x) (sa_cre x) [] [] (sa_synced x) (sa_synced x)) <$> w))
            end
   | _ => inr st
   end
